@@ -153,8 +153,8 @@ def calls(key: str, rng, C, n: int):  # noqa: C901
         for v in [0, 1, 400, 790, 5000, 32766, 65536, -1, None]:
             yield (lambda v=v: C.put_co2_level("37:039266", v)), {"co2_level": v}, f"{v}"
     elif key == " I|12A0":
-        for v in [k / 100 for k in range(0, 101, 5)] + [0.005, 0.555, 1.01, -0.01, None]:
-            yield (lambda v=v: C.put_indoor_humidity("37:039266", v)), {"indoor_humidity": ("r", v, 0.01)}, f"{v}"
+        for v in [k / 100 for k in range(0, 101)] + [0.005, 0.555, 1.01, -0.01, None]:  # (the whole 1 % grid: 0.29 * 100 is 28.999...)
+            yield (lambda v=v: C.put_indoor_humidity("37:039266", v)), {"indoor_humidity": ("r", v, 0.005 + 1e-9)}, f"{v}"
     elif key == "RQ|12B0":
         yield from zone_rq(C.get_zone_window_state)
     elif key == "RQ|1F41":
